@@ -170,6 +170,14 @@ func (c *Ctx) path(v ssa.Value, env Env, d int) string {
 		}
 		return x.Op.String() + c.path(x.X, env, d+1)
 	case *ssa.FieldAddr:
+		// a struct value kept in a local cell that is written once, as a whole (v := f(); use v.field)
+		if al, ok := x.X.(*ssa.Alloc); ok && d < 40 {
+			if _, renamed := env[al]; !renamed {
+				if st := wholeStore(al); st != nil && instrBefore(st, x) {
+					return c.path(st.Val, env, d+1) + "." + fieldName(x.X.Type(), x.Field)
+				}
+			}
+		}
 		return c.path(x.X, env, d) + "." + fieldName(x.X.Type(), x.Field)
 	case *ssa.Field:
 		return c.path(x.X, env, d) + "." + fieldName(x.X.Type(), x.Field)
@@ -525,6 +533,47 @@ func singleStore(al *ssa.Alloc) *ssa.Store {
 	}
 	if !onlyReads(al, 0) {
 		return nil
+	}
+	return st
+}
+
+// wholeStore: al is the cell of a local struct that is written exactly once, as a whole, and otherwise only read
+// (through field addresses that are only loaded from).
+func wholeStore(al *ssa.Alloc) *ssa.Store {
+	pt, isPtr := al.Type().Underlying().(*types.Pointer)
+	if !isPtr || al.Referrers() == nil {
+		return nil
+	}
+	if _, isStruct := pt.Elem().Underlying().(*types.Struct); !isStruct {
+		return nil
+	}
+	var st *ssa.Store
+	for _, r := range *al.Referrers() {
+		switch x := r.(type) {
+		case *ssa.Store:
+			if x.Addr != ssa.Value(al) || st != nil {
+				return nil
+			}
+			st = x
+		case *ssa.FieldAddr:
+			if x.Referrers() == nil {
+				return nil
+			}
+			for _, rr := range *x.Referrers() {
+				if ld, isLd := rr.(*ssa.UnOp); !isLd || ld.Op != token.MUL {
+					if _, isDbg := rr.(*ssa.DebugRef); !isDbg {
+						return nil
+					}
+				}
+			}
+		case *ssa.UnOp:
+			if x.Op != token.MUL {
+				return nil
+			}
+		case *ssa.DebugRef:
+		default:
+			return nil
+		}
 	}
 	return st
 }
